@@ -87,6 +87,7 @@ META = {
         "(signature kinds, split, scheme, validate) classes."
         " Name clash: the same task name registered on a shared broker and on the worker's broker with different signatures, either registration order; the local function runs with arguments bound and converted by its own signature."
         " Every signature with at most two parameters (thorough: all) also behind a functools.wraps pass-through decorator."
+        " Scheme 'nonemix': None for every other parameter, convertible strings for the rest."
     ),
     "assumptions": [
         "ORJSON / MsgPack / CBOR serializers cannot be imported in this image and are not covered",
@@ -161,6 +162,10 @@ def value_for(kind: str, scheme: str, j: int) -> Any:
     """Value the caller sends for parameter j of the given kind under a scheme."""
     if scheme == "none":
         return None
+    if scheme == "nonemix":
+        # None for every other parameter, convertible strings for the rest (a None must not end the conversion
+        # of the parameters after it)
+        return None if j % 2 == 0 else value_for(kind, "conv", j)
     if scheme in ("rep", "rep2"):
         # the same (interned) objects repeated along the parameter list: a value that cannot be converted
         # first, then one that can, then that very object again (rep2: the refused one again at the end)
@@ -254,7 +259,7 @@ def expected_value(kind: str, sent: Any, validate: bool) -> Any:
         return w
 
 
-SCHEMES = ["conv", "nonconv", "native", "inst", "none", "alt", "falsy", "rep", "rep2"]
+SCHEMES = ["conv", "nonconv", "native", "inst", "none", "alt", "falsy", "rep", "rep2", "nonemix"]
 
 
 def _wrap_passthrough(fn: Any) -> Any:
